@@ -232,13 +232,15 @@ class Comparer:
     def _trailing_brace(self, py, pv, sv):
         """Defect model: a literal f-string part whose source ends with an escaped brace ({{ or
         }}) ends one column early (the tokenize module's FSTRING_MIDDLE position)."""
-        if self.src is None or pv - sv != 1 or not py.end_lineno:
+        if self.src is None or not py.end_lineno or not isinstance(sv, int):
             return False
         lines = self._lines()
         if py.end_lineno > len(lines):
             return False
         raw = lines[py.end_lineno - 1].encode("utf-8")[:pv]
-        return raw.endswith((b"{{", b"}}"))
+        # (on a line with non-ASCII text the column is a character count as well)
+        chars = len(raw.decode("utf-8", "ignore"))
+        return raw.endswith((b"{{", b"}}")) and chars - sv == 1
 
     # -- f-strings --------------------------------------------------------------------------
     def _fstring_is_raw(self, py):
@@ -287,8 +289,9 @@ class Comparer:
             if type(b) is not ast.Constant:
                 self.fail("Constant", "type->" + type(b).__name__, a, b)
             if a.value != b.value or type(a.value) is not type(b.value):
-                if raw is False and isinstance(b.value, str) and \
-                        decode_escapes(b.value) == a.value:
+                # (rawness unknown = implicit concatenation starting with a plain literal: the
+                # equality itself shows that CPython decoded the part)
+                if isinstance(b.value, str) and decode_escapes(b.value) == a.value:
                     self.record(Diff("/".join(self.path[-6:]), "Constant", "value",
                                      _short(a), _short(b), a.lineno,
                                      "fstring-literal-part:escapes-not-decoded", a.col_offset))
@@ -304,6 +307,12 @@ class Comparer:
     def joinedstr_models(self, py, sc, raw):
         """The parts do not line up one to one: try the known deviations, each recorded under
         its own cell; anything they do not explain exactly is a generic difference."""
+        for decode in ((False,) if raw else (False, True)):
+            if self._joinedstr_models(py, sc, decode):
+                return True
+        return False
+
+    def _joinedstr_models(self, py, sc, decode):
         models = []
         # (1) a literal part that is exactly "{" taken for the brace of a replacement field
         tv = []
@@ -322,9 +331,9 @@ class Comparer:
         for v in tv:
             if type(v) is ast.Constant and isinstance(v.value, str):
                 val = v.value
-                if raw is False:
+                if decode:
                     dec = decode_escapes(val)
-                    if dec != val:
+                    if dec is not None and dec != val:
                         models.append("escapes-not-decoded")
                         val = dec
                 if merged and type(merged[-1]) is ast.Constant:
@@ -342,7 +351,10 @@ class Comparer:
                     and type(pvals[k + 1]) is ast.FormattedValue and self.src is not None:
                 seg = ast.get_source_segment(self.src, pvals[k + 1].value)
                 m = seg and re.search(r"(\s*)" + re.escape(seg) + r"\s*=\s*$", v.value)
-                if m:
+                fv = pvals[k + 1]
+                # CPython's part holding the debug text ends inside the braces of the field
+                inside = (v.end_lineno, v.end_col_offset) > (fv.lineno, fv.col_offset)
+                if m and inside:
                     # white space before the expression may belong to the literal or to the
                     # field: take the split the other side shows
                     j = len(ev)
